@@ -381,6 +381,7 @@ Record at_value (s : pstate) (cur : cty) : Prop := mkAt {
   av_error : st_error s = None;
   av_clean : Forall clean_part (st_parts s);
   av_last : exists ps p, st_parts s = ps ++ [p] /\ pt_type p = st_ret s;
+  av_part : exists p, st_part s = Some p /\ pt_type p = st_ret s;
   av_should : st_should_err s = false;
   av_unknown : st_prev_unknown s = false;
   av_found : st_found_first s = true;
@@ -425,9 +426,9 @@ Lemma step_ident_struct s o fs k :
   find_value_at_path root (st_cue s) = Some (CStruct o fs) ->
   (st_ret s = None \/ st_ret s = Some (PT_Object, IO_Single)) ->
   match declared k fs with
-  | Some t => exists s', step_ident root blocked s k = Continue s' /\ at_value s' t
+  | Some t => exists s', step_ident root blocked s k = Continue s' /\ at_value s' t /\ st_cue s' = st_cue s ++ [k]
   | None =>
-    if o then exists s', step_ident root blocked s k = Continue s' /\ at_value s' CTop
+    if o then exists s', step_ident root blocked s k = Continue s' /\ at_value s' CTop /\ st_cue s' = st_cue s ++ [k]
     else exists s', step_ident root blocked s k = Return s' /\ st_error s' = None /\
                     st_parts s' = st_parts s ++ [error_part KIdent EUndeclared]
   end.
@@ -446,12 +447,14 @@ Proof.
                 let p := mkPart KIdent e false [] ty in
                 let s' := mkPstate (st_error s) (add_part s p) (Some p) ty (st_cue s ++ [k]) false true false in
                 if part_has p then Return s' else Continue s') = Continue s' /\
-               (find_value_at_path root (st_cue s ++ [k]) = Some t -> at_value s' t)).
-  { intros t Ht. rewrite (ident_type_wf _ Ht). cbn. eexists. split; [reflexivity|].
+               (find_value_at_path root (st_cue s ++ [k]) = Some t -> at_value s' t) /\
+               st_cue s' = st_cue s ++ [k]).
+  { intros t Ht. rewrite (ident_type_wf _ Ht). cbn. eexists. split; [reflexivity|]. split; [|reflexivity].
     intros Hfv. constructor; cbn; auto.
     - unfold add_part. apply Forall_app. split; [exact Hc|]. constructor; [|constructor].
       repeat split; reflexivity.
-    - unfold add_part. eexists _, _. split; reflexivity. }
+    - unfold add_part. eexists _, _. split; reflexivity.
+    - eexists. split; reflexivity. }
   assert (Hfv : forall t, (match declared k fs with Some t0 => StepTo t0 | None => if o then StepTo CTop else StepErr end) = StepTo t ->
                           find_value_at_path root (st_cue s ++ [k]) = Some t).
   { intros t E. rewrite fvap_app, Hcue. cbn [find_value_at_path]. rewrite (find_step_struct _ _ _ Hwf), E. reflexivity. }
@@ -460,13 +463,26 @@ Proof.
     { rewrite (declared_named _ _ Hd) in Ed. destruct (named k fs) as [[l t0]|] eqn:En; [|discriminate].
       destruct (fform_eqb (fl_form l) FDef); [discriminate|]. injection Ed as ->.
       destruct (named_In _ _ _ En) as [Hin _]. apply (Hall _ _ Hin). }
-    destruct (Hstep t Ht) as [s' [E1 E2]]. exists s'. split; [exact E1|]. apply E2. apply Hfv. reflexivity.
+    destruct (Hstep t Ht) as [s' [E1 [E2 E3]]]. exists s'. split; [exact E1|]. split; [|exact E3]. apply E2. apply Hfv. reflexivity.
   - destruct o.
-    + destruct (Hstep CTop eq_refl) as [s' [E1 E2]]. exists s'. split; [exact E1|]. apply E2. apply Hfv. reflexivity.
+    + destruct (Hstep CTop eq_refl) as [s' [E1 [E2 E3]]]. exists s'. split; [exact E1|]. split; [|exact E3]. apply E2. apply Hfv. reflexivity.
     + cbn. eexists. split; [reflexivity|]. cbn. split; [exact He|reflexivity].
 Qed.
 
 (** on `_` every further key is accepted as Any *)
+Lemma step_ident_top s k : at_value s CTop ->
+  exists s', step_ident root blocked s k = Continue s' /\ at_value s' CTop /\ st_cue s' = st_cue s ++ [k].
+Proof.
+  intros H. destruct H. unfold step_ident. rewrite av_should0, av_unknown0, av_ret0, av_found0. cbn.
+  unfold validate_ident. rewrite fvap_app, av_cue0, fvap_top. cbn.
+  eexists. split; [reflexivity|]. split; [|reflexivity]. constructor; cbn; auto.
+  - unfold add_part. apply Forall_app. split; [exact av_clean0|]. constructor; [|constructor].
+    repeat split; reflexivity.
+  - unfold add_part. eexists _, _. split; reflexivity.
+  - eexists. split; reflexivity.
+  - rewrite fvap_app, av_cue0. apply fvap_top.
+Qed.
+
 Lemma keys_loop_top ks s : at_value s CTop -> state_verdict (keys_loop ks s) = Some any_forever.
 Proof.
   revert s. induction ks as [|k ks IH]; intros s H.
@@ -475,15 +491,17 @@ Proof.
     rewrite av_error0, (clean_parts_has _ av_clean0), (clean_parts_errs _ av_clean0).
     destruct av_last0 as [ps [p [Hp Ht]]]. rewrite Hp, last_app, Ht, av_ret0. reflexivity.
   - cbn [keys_loop].
-    assert (E : exists s', step_ident root blocked s k = Continue s' /\ at_value s' CTop).
-    { destruct H. unfold step_ident. rewrite av_should0, av_unknown0, av_ret0, av_found0. cbn.
-      unfold validate_ident. rewrite fvap_app, av_cue0, fvap_top. cbn.
-      eexists. split; [reflexivity|]. constructor; cbn; auto.
-      - unfold add_part. apply Forall_app. split; [exact av_clean0|]. constructor; [|constructor].
-        repeat split; reflexivity.
-      - unfold add_part. eexists _, _. split; reflexivity.
-      - rewrite fvap_app, av_cue0. apply fvap_top. }
-    destruct E as [s' [E1 E2]]. rewrite E1. apply IH. exact E2.
+    destruct (step_ident_top s k H) as [s' [E1 [E2 _]]]. rewrite E1. apply IH. exact E2.
+Qed.
+
+Lemma keys_loop_top_at ks s : at_value s CTop ->
+  exists s', keys_loop ks s = (s', false) /\ at_value s' CTop /\ st_cue s' = st_cue s ++ ks.
+Proof.
+  revert s. induction ks as [|k ks IH]; intros s H.
+  - exists s. rewrite app_nil_r. auto.
+  - cbn [keys_loop]. destruct (step_ident_top s k H) as [s' [E1 [E2 E3]]]. rewrite E1.
+    destruct (IH s' E2) as [s'' [F1 [F2 F3]]]. exists s''. split; [exact F1|]. split; [exact F2|].
+    rewrite F3, E3, <- app_assoc. reflexivity.
 Qed.
 
 Lemma keys_loop_at ks : forall s cur,
@@ -521,9 +539,9 @@ Proof.
                     (av_should _ _ H) (av_unknown _ _ H) (or_introl (av_found _ _ H)) (av_cue _ _ H)
                     (or_intror (av_ret _ _ H))) as Hstep.
       destruct (declared k fs) as [t|].
-      * destruct Hstep as [s' [E1 E2]]. rewrite E1. apply IH. exact E2.
+      * destruct Hstep as [s' [E1 [E2 _]]]. rewrite E1. apply IH. exact E2.
       * destruct o.
-        -- destruct Hstep as [s' [E1 E2]]. rewrite E1. apply keys_loop_top. exact E2.
+        -- destruct Hstep as [s' [E1 [E2 _]]]. rewrite E1. apply keys_loop_top. exact E2.
         -- destruct Hstep as [s' [E1 [E2 E3]]]. rewrite E1.
            rewrite (verdict_error_part s EUndeclared (av_error _ _ H) (av_clean _ _ H) s' true E2 E3). reflexivity.
 Qed.
@@ -542,11 +560,62 @@ Proof.
                 (or_intror Hb) Hcue (or_introl eq_refl)) as Hstep.
   cbn [walk].
   destruct (declared k fs) as [t|].
-  - destruct Hstep as [s' [E1 E2]]. rewrite E1. apply keys_loop_at. exact E2.
+  - destruct Hstep as [s' [E1 [E2 _]]]. rewrite E1. apply keys_loop_at. exact E2.
   - destruct o.
-    + destruct Hstep as [s' [E1 E2]]. rewrite E1. apply keys_loop_top. exact E2.
+    + destruct Hstep as [s' [E1 [E2 _]]]. rewrite E1. apply keys_loop_top. exact E2.
     + destruct Hstep as [s' [E1 [E2 E3]]]. rewrite E1.
       rewrite (verdict_error_part (init_state sr []) EUndeclared eq_refl Hclean s' true E2 E3). reflexivity.
+Qed.
+
+(** the state reached by an accepted path: used by C14 to continue with a function call *)
+Lemma keys_loop_accept ks : forall s cur ty,
+  at_value s cur -> walk cur ks = Accept ty ->
+  exists s' cur', keys_loop ks s = (s', false) /\ at_value s' cur' /\ kind_of cur' = ty /\
+                  st_cue s' = st_cue s ++ ks.
+Proof.
+  induction ks as [|k ks IH]; intros s cur ty H Hw.
+  - cbn in Hw. injection Hw as <-. exists s, cur. rewrite app_nil_r. auto.
+  - destruct cur as [ | | | | | | | open e | l | o fs]; cbn [walk] in Hw; try discriminate.
+    + (* `_` *) injection Hw as <-.
+      destruct (keys_loop_top_at (k :: ks) s H) as [s' [E1 [E2 E3]]]. exists s', CTop. auto.
+    + (* struct *)
+      cbn [keys_loop].
+      pose proof (step_ident_struct s o fs k (av_wf _ _ H) (av_error _ _ H) (av_clean _ _ H)
+                    (av_should _ _ H) (av_unknown _ _ H) (or_introl (av_found _ _ H)) (av_cue _ _ H)
+                    (or_intror (av_ret _ _ H))) as Hstep.
+      destruct (declared k fs) as [t|].
+      * destruct Hstep as [s' [E1 [E2 E3]]]. rewrite E1.
+        destruct (IH s' t ty E2 Hw) as [s'' [cur' [F1 [F2 [F3 F4]]]]]. exists s'', cur'.
+        split; [exact F1|]. split; [exact F2|]. split; [exact F3|]. rewrite F4, E3, <- app_assoc. reflexivity.
+      * destruct o; [|discriminate]. injection Hw as <-.
+        destruct Hstep as [s' [E1 [E2 E3]]]. rewrite E1.
+        destruct (keys_loop_top_at ks s' E2) as [s'' [F1 [F2 F3]]]. exists s'', CTop.
+        split; [exact F1|]. split; [exact F2|]. split; [reflexivity|]. rewrite F3, E3, <- app_assoc. reflexivity.
+Qed.
+
+Lemma keys_loop_init_accept sr o fs k ks ty :
+  root = CStruct o fs -> wf root = true -> str_mem k blocked = false ->
+  walk (CStruct o fs) (k :: ks) = Accept ty ->
+  exists s' cur', keys_loop (k :: ks) (init_state sr []) = (s', false) /\ at_value s' cur' /\
+                  kind_of cur' = ty /\ st_cue s' = k :: ks.
+Proof.
+  intros Hr Hwf Hb Hw. cbn [keys_loop]. rewrite Hr in Hwf.
+  assert (Hcue : find_value_at_path root (st_cue (init_state sr [])) = Some (CStruct o fs)).
+  { unfold init_state. cbn. destruct sr; cbn; rewrite Hr; reflexivity. }
+  assert (Hclean : Forall clean_part (st_parts (init_state sr []))).
+  { cbn. constructor; [|constructor]. repeat split; reflexivity. }
+  assert (Hc0 : st_cue (init_state sr []) = []) by (destruct sr; reflexivity).
+  pose proof (step_ident_struct (init_state sr []) o fs k Hwf eq_refl Hclean eq_refl eq_refl
+                (or_intror Hb) Hcue (or_introl eq_refl)) as Hstep.
+  cbn [walk] in Hw.
+  destruct (declared k fs) as [t|].
+  - destruct Hstep as [s' [E1 [E2 E3]]]. rewrite E1.
+    destruct (keys_loop_accept ks s' t ty E2 Hw) as [s'' [cur' [F1 [F2 [F3 F4]]]]]. exists s'', cur'.
+    split; [exact F1|]. split; [exact F2|]. split; [exact F3|]. rewrite F4, E3, Hc0. reflexivity.
+  - destruct o; [|discriminate]. injection Hw as <-.
+    destruct Hstep as [s' [E1 [E2 E3]]]. rewrite E1.
+    destruct (keys_loop_top_at ks s' E2) as [s'' [F1 [F2 F3]]]. exists s'', CTop.
+    split; [exact F1|]. split; [exact F2|]. split; [reflexivity|]. rewrite F3, E3, Hc0. reflexivity.
 Qed.
 
 End Keys.
